@@ -234,12 +234,23 @@ def cap_findings(findings, per_signature=4, total=400):
     return out
 
 
+_TOO_MANY_MEMO: dict = {}
+
+
 def too_many(findings, limit=25):
     """Stop exploring a work unit only when many DISTINCT violation families were seen, so a known
-    family can never hide a different violation behind it."""
+    family can never hide a different violation behind it.  Incremental: each finding is looked at once."""
     if len(findings) < limit:
         return False
-    return len({json.dumps(jsonable(f.get("signature", {})), sort_keys=True) for f in findings}) >= limit
+    memo = _TOO_MANY_MEMO.get(id(findings))
+    if memo is None or memo[0] > len(findings):
+        memo = [0, set()]
+        _TOO_MANY_MEMO.clear()
+        _TOO_MANY_MEMO[id(findings)] = memo
+    for f in findings[memo[0]:]:
+        memo[1].add(json.dumps(jsonable(f.get("signature", {})), sort_keys=True))
+    memo[0] = len(findings)
+    return len(memo[1]) >= limit
 
 
 def chunked(seq, n):
